@@ -2,10 +2,18 @@
    Coq type, agreement predicates, and the driver that returns the failing case ids.
    A check function returns a code: 0 = implementation agrees with model and spec,
    1 = differs from the model only, 2 = differs from the naive spec only, 3 = differs from both. *)
-From Coq Require Import NArith List Bool.
+From Coq Require Import NArith ZArith List Bool.
 Require Import SDS.Model.Mach.
 Import ListNotations.
 Open Scope N_scope.
+
+(* Transport of large literals: elaborating a 20-digit [N] numeral costs Coq ~1.3 ms, a primitive integer
+   ~0.1 ms. The harness writes numbers >= 2^32 as [W hi lo] (two 32-bit halves); they become [N] inside
+   vm_compute. Primitive integers occur only in case files and Check/, never in a theorem cone. *)
+Require Export Coq.Numbers.Cyclic.Int63.Uint63.
+Definition W (hi lo : PrimInt63.int) : N :=
+  Z.to_N (Uint63.to_Z hi) * 4294967296 + Z.to_N (Uint63.to_Z lo).
+Arguments W (hi lo)%uint63.
 
 Inductive ires (A : Type) := IOk (a : A) | IPanic (k : N).
 Arguments IOk {A} a. Arguments IPanic {A} k.
